@@ -217,7 +217,10 @@ def _count(recs, key):
 
 def decide_undischarged(spec, known, report, r, ob, root):
     pid = spec.pid
-    fails = [f for f in (r.get("search") or {}).get("failures", []) if f.get("kind") in spec.failure_kinds()]
+    src = "search_errors" if ("/F/structure" in ob["name"] and r.get("search_errors")) else "search"
+    fails = [f for f in (r.get(src) or {}).get("failures", []) if f.get("kind") in spec.failure_kinds()]
+    if "/F/structure" in ob["name"] and not fails and src == "search":
+        fails = []
     # prefer a failure of the obligation's own kind
     fails.sort(key=lambda f: 0 if f.get("kind") == ob["kind"] else 1)
     unknown_fail = None
@@ -230,7 +233,7 @@ def decide_undischarged(spec, known, report, r, ob, root):
         unknown_fail = f
         break
     payload = {"property": pid, "obligation": ob["name"], "function": r.get("function"), "draft": r.get("draft"),
-               "kind": "kw", "root": root, "solver": {"status": ob["status"], "backend": ob.get("solver"), "reason": ob.get("reason", "")},
+               "kind": "kw", "mode": ("errors" if "/F/structure" in ob["name"] else "verdict"), "root": root, "solver": {"status": ob["status"], "backend": ob.get("solver"), "reason": ob.get("reason", "")},
                "model": ob.get("model"), "note": ob.get("note")}
     if unknown_fail is not None:
         payload["failure"] = unknown_fail
